@@ -38,7 +38,7 @@ def main():
     from hypothesis import given, settings, HealthCheck, strategies as st
     mod = importlib.import_module('props.' + a.prop.lower())
     strata = mod.strata('thorough') if hasattr(mod, 'strata') else [('all', mod.strategy('thorough'))]
-    strata = [(n, s) for n, s in strata if a.stratum in n]
+    strata = [(e[0], e[1]) for e in strata if a.stratum in e[0]]
     strat = st.one_of(*[s for _, s in strata])
     run = core.Run(mod.PROP, mod.LEVEL, mod.RULE, tier='thorough')
     triggers = getattr(mod, 'TRIGGERS', {})
